@@ -402,6 +402,16 @@ Definition ex_exec (s : st) (c : cmd) : st * list ev :=
 Definition ex_command (s : st) (c : cmd) : st * list ev :=
   let (s1, evs) := ex_exec s c in (set_bufs s1 (upd0 bump (bufs s1)), evs).
 
+(* a command line `c1|c2|...`: ex_exec runs every command (a failing one does not stop the line), then the one
+   closing lbuf_modified(xb) of ex_command *)
+Fixpoint exec_all (s : st) (cs : list cmd) : st * list ev :=
+  match cs with
+  | [] => (s, [])
+  | c :: r => let (s1, e1) := ex_exec s c in let (s2, e2) := exec_all s1 r in (s2, e1 ++ e2)
+  end.
+Definition ex_line (s : st) (cs : list cmd) : st * list ev :=
+  let (s1, evs) := exec_all s cs in (set_bufs s1 (upd0 bump (bufs s1)), evs).
+
 Fixpoint run (s : st) (cs : list cmd) : st :=
   match cs with
   | [] => s
@@ -451,17 +461,38 @@ Definition clb_edit (new : content) (l : clb) : clb :=
 Definition clb_saved (clear : bool) (l : clb) : clb :=
   let l1 := if clear then mkclb (c_text l) [] 0 (c_useq l) (c_zero l) (c_useq l) else l in
   fst (clb_modified (mkclb (c_text l1) (c_hist l1) (c_hu l1) (c_useq l1) (clb_seq l1) (c_last l1))).
+(* lbuf_undo / lbuf_redo: all entries with the sequence number of the last (next) one *)
+Fixpoint undo_loop (h : list (Z * content * content)) (q : Z) (k : nat) (t : content) : nat * content :=
+  match k with
+  | O => (O, t)
+  | S k' => match nth_error h k' with
+            | Some (q', before, _) => if Z.eqb q' q then undo_loop h q k' before else (k, t)
+            | None => (k, t)
+            end
+  end.
+Fixpoint redo_loop (h : list (Z * content * content)) (q : Z) (fuel k : nat) (t : content) : nat * content :=
+  match fuel with
+  | O => (k, t)
+  | S f => match nth_error h k with
+           | Some (q', _, after) => if Z.eqb q' q then redo_loop h q f (S k) after else (k, t)
+           | None => (k, t)
+           end
+  end.
 Definition clb_undo (l : clb) : clb :=
   match c_hu l with
   | O => l
   | S k => match nth_error (c_hist l) k with
-           | Some (_, before, _) => mkclb before (c_hist l) k (c_useq l) (c_zero l) (c_last l)
+           | Some (q, _, _) =>
+               let (k', t') := undo_loop (c_hist l) q (c_hu l) (c_text l) in
+               mkclb t' (c_hist l) k' (c_useq l) (c_zero l) (c_last l)
            | None => l
            end
   end.
 Definition clb_redo (l : clb) : clb :=
   match nth_error (c_hist l) (c_hu l) with
-  | Some (_, _, after) => mkclb after (c_hist l) (S (c_hu l)) (c_useq l) (c_zero l) (c_last l)
+  | Some (q, _, _) =>
+      let (k', t') := redo_loop (c_hist l) q (length (c_hist l)) (c_hu l) (c_text l) in
+      mkclb t' (c_hist l) k' (c_useq l) (c_zero l) (c_last l)
   | None => l
   end.
 
@@ -536,3 +567,4 @@ Definition clb_ops : lops clb cop cout :=
 
 Definition c_init := @ex_init clb cop cout clb_ops.
 Definition c_command := @ex_command clb cop cout clb_ops.
+Definition c_line := @ex_line clb cop cout clb_ops.
